@@ -39,9 +39,9 @@ PARTS = {'quick': 4, 'thorough': 16}
 DEPTH = {'quick': 2, 'thorough': 2}
 DEPTH3_PROGRAMS = (0, 1, 5, 10, 11, 15, 22, 23, 28)
 BOUNDS = {
-    'quick': 'depth 1: 47 programs x full alphabet (7 codes/category, 3 slice codes, 3 forms, 5 option settings); '
-             'depth 2: every distinct state reached by the 2-code x (src, fst) x 2-option first-level alphabet, expanded with '
-             'the 1-code alphabet',
+    'quick': 'depth 1: 49 programs x full alphabet (7 codes/category, 3 slice codes, 3 forms, 5 option settings, primitive puts); '
+             'depth 2 (every cacheable query asked before each edit): every distinct state reached by the 1-code x 2-option '
+             'first-level alphabet (incl. comment rewriting), expanded with the 1-code alphabet',
     'thorough': 'depth 1: all 15 codes, 7 slice codes, 17 option settings; depth 2: 3 codes x 2 forms x 2 option sets from '
                 'every distinct depth-1 state; depth 3 on 9 programs with the 1-code alphabet',
 }
@@ -52,8 +52,9 @@ def shards(tier):
     for i in range(len(PROGRAMS)):
         if tier == 'quick':  # depth 1 with the full alphabet; depth 2 from the states of a reduced first-level alphabet
             out.append({'prog': i, 'part': [0, 1], 'depth': 1})
-            for r in range(3):
-                out.append({'prog': i, 'part': [r, 3], 'depth': 2, 'reduced_first': True})
+            np = 3 if len(PROGRAMS[i]) < 60 else 10  # big programs are the long pole
+            for r in range(np):
+                out.append({'prog': i, 'part': [r, np], 'depth': 2, 'reduced_first': True})
             continue
         for r in range(PARTS[tier]):
             out.append({'prog': i, 'part': [r, PARTS[tier]], 'depth': DEPTH[tier]})
@@ -107,7 +108,7 @@ def run_shard(desc, tier, res):
     if desc['depth'] == 3:
         alphas = [ALPHA['quick'][1], ALPHA['quick'][1], ALPHA['thorough'][2]]
     if desc.get('reduced_first'):
-        alphas = [dict(nk=2, nks=2, forms=('src', 'fst'), opts=({}, {'trivia': False}), lc_texts=('lc', 'a much longer comment', None)),
+        alphas = [dict(nk=1, nks=1, forms=('src',), opts=({}, {'trivia': False}), lc_texts=('a much longer comment', None)),
                   ALPHA['quick'][1]]
 
     def on_state(root, pre, hist, cid, c2):
